@@ -683,5 +683,98 @@ def r16_13(ctx):
     return r
 
 
+def r16_14(ctx):
+    """'Candidate lines survive an SDP round trip' / are read by an independent implementation: RFC 8839 5.1 puts the related
+    address directly behind `typ <type>` and extension attributes (tcptype, generation, ufrag ...) after it. to_sdp wrote
+    `tcptype` first; the reference implementation reads such a line with an empty related address. Decided: in
+    IceCandidate::to_sdp no `raddr` / `rport` keyword is pushed on a path that has already pushed an extension keyword."""
+    r = RuleResult("R16.14", "K4", "to_sdp writes raddr / rport before any extension attribute")
+    b = ctx.body("transports::ice::IceCandidate::to_sdp")
+    r.scope.append(b.name)
+
+    def sites(words):
+        out = []
+        for bi, t, p in b.calls():
+            for a in t["a"]:
+                for x in mir.walk(b.term_operand(a)):
+                    if x[0] == "const" and len(x) > 2 and isinstance(x[2], str) and x[2].strip('"') in words:
+                        out.append(bi)
+        return sorted(set(out))
+    rel, ext = sites(("raddr", "rport")), sites(("tcptype", "generation", "ufrag", "network-id", "network-cost"))
+    r.need("raddr / rport keyword sites in to_sdp", len(rel), 2)
+    r.need("extension keyword sites in to_sdp", len(ext), 1)
+    bad = [(e, x) for e in ext for x in rel if x in b.reachable([t for t, _ in b.succ_edges(e)])]
+    if bad:
+        e, x = bad[0]
+        r.violate(b.name, "candidate:order:extension-before-raddr", b.where(e),
+                  "an extension attribute is written at %s and `raddr` / `rport` after it at %s: RFC 8839 5.1 readers (the reference "
+                  "implementation among them) take the related address only directly behind `typ`" % (b.where(e), b.where(x)))
+    else:
+        r.ok({"order": "typ, [raddr rport], extensions"})
+    return r
+
+
+def r16_15(ctx):
+    """'messages built by that implementation decode to the same ... attribute values' for attribute MULTISETS: RFC 5389 15
+    - when an attribute appears more than once only the first occurrence counts (the reference implementation does that);
+    decode_stun_message overwrote on every occurrence, i.e. kept the last. Decided: every store of a decoded attribute
+    into its result variable inside the attribute loop is on the `<variable>.is_none()` edge."""
+    r = RuleResult("R16.15", "K1", "of a repeated STUN attribute the first occurrence is the one decoded")
+    b = ctx.body("transports::ice::stun::decode_stun_message")
+    r.scope.append(b.name)
+    names = ("xor_mapped_address", "xor_relayed_address", "xor_peer_address", "error_code", "realm", "nonce", "data", "lifetime", "username")
+    n = 0
+    loops = b.loops()
+    for nm in names:
+        idx = [i for i, l in enumerate(b.locals) if l.get("n") == nm]
+        if not idx:
+            continue
+        for bi, si, st in b.assigns():
+            if st["p"]["l"] not in idx or "p" in st["p"]:
+                continue
+            if not any(bi in blocks for _h, blocks in loops):
+                continue        # the `let mut x = None` before the loop
+            n += 1
+
+            def unset(term, meaning, *_, idx=idx):
+                t, neg = term, False
+                while t[0] == "un" and t[1] == "Not":
+                    t, neg = t[2], not neg
+                if t[0] == "call" and t[1].endswith(("Option::<T>::is_none", "Option::<T>::is_some")) and isinstance(meaning, bool) and \
+                        t[2] and t[2][0][0] == "var" and len(t[2][0]) > 2 and t[2][0][2] in idx:
+                    return (meaning != neg) is t[1].endswith("is_none")
+                if t[0] == "discr" and t[1][0] == "var" and len(t[1]) > 2 and t[1][2] in idx and meaning == "None":
+                    return True
+                return False
+            g = core.lift_guards(b, core.guard_edges(b, unset))
+            if g and core.k1(b, [bi], g, fresh_per_iteration=True)[bi] is None:
+                r.ok({"site": b.where(bi, si), "attribute": nm, "stored": "only while unset"})
+            else:
+                r.violate(b.name, "attr:%s:last-wins" % nm, b.where(bi, si),
+                          "a repeated %s attribute overwrites the value decoded from the first one: an independent implementation "
+                          "(RFC 5389 15: first occurrence) reads another value from the same bytes" % nm.upper().replace("_", "-"))
+    r.need("attribute stores in the decode loop", n, 8)
+    return r
+
+
+def r16_16(ctx):
+    """'string lengths 0..763': REALM and NONCE may each be 763 bytes; a conforming 401 that carries both next to ERROR-CODE,
+    MESSAGE-INTEGRITY and FINGERPRINT is longer than 1500 bytes. The receive buffers of the TURN client are
+    MAX_STUN_MESSAGE bytes; with 1500 such a response was truncated and the allocation failed. Decided: the constant is at
+    least 20 + 2*(4+764) + (4+8) + 24 + 8 = 1608."""
+    r = RuleResult("R16.16", "K6", "the STUN receive buffer holds a response with maximal REALM and NONCE")
+    c = ctx.facts.consts.get("transports::ice::MAX_STUN_MESSAGE")
+    if c is None:
+        raise core.CheckerError("R16.16: MAX_STUN_MESSAGE not found")
+    v = c.get("v") if isinstance(c, dict) else c
+    need = 20 + 2 * (4 + 764) + (4 + 8) + 24 + 8
+    if isinstance(v, int) and v >= need:
+        r.ok({"MAX_STUN_MESSAGE": v, ">=": need})
+    else:
+        r.violate("transports::ice", "const:MAX_STUN_MESSAGE", "src/transports/ice/mod.rs",
+                  "MAX_STUN_MESSAGE = %s is smaller than a 401 response with 763-byte REALM and NONCE (%d bytes): it is truncated on receive" % (v, need))
+    return r
+
+
 def run(ctx):
-    return [r16_1(ctx), r16_2(ctx), r16_3(ctx), r16_4(ctx), r16_5(ctx), r16_6(ctx), r16_7(ctx), r16_8(ctx), r16_9(ctx), r16_10(ctx), r16_11(ctx), r16_12(ctx), r16_13(ctx)]
+    return [r16_1(ctx), r16_2(ctx), r16_3(ctx), r16_4(ctx), r16_5(ctx), r16_6(ctx), r16_7(ctx), r16_8(ctx), r16_9(ctx), r16_10(ctx), r16_11(ctx), r16_12(ctx), r16_13(ctx), r16_14(ctx), r16_15(ctx), r16_16(ctx)]
